@@ -10,7 +10,7 @@ From CGV Require Import Base.PyBase Base.PyVal Gen.FragGen Dialect.DialectImpl F
      Frag.StripFacts Frag.FragProofs Frag.FragTextX Frag.FragProofsX Frag.FragStages Frag.FragSmall Frag.RingProofs
      Gen.SmilesGen Frag.SmilesParse Frag.SmilesSpec Frag.SmilesProofs Frag.SmilesIndex Frag.SmilesRelabel Frag.SmilesPerm
      Frag.Template Frag.TemplateProofs Frag.TemplateFinal Frag.TemplateGraph Frag.TemplateCompose Frag.SmilesReverse Frag.SmilesPermR
-     Frag.SmilesReroot Frag.SmilesRewrite.
+     Frag.SmilesReroot Frag.SmilesRewrite Frag.SmilesPermX.
 From CGV Require Import Base.NxGraph Compose.CutModel Compose.CutSpecDefs.
 Local Open Scope nat_scope.
 Import ListNotations.
@@ -334,6 +334,42 @@ Example C01_branch_order_rings_nonvacuous :
   (exists G H, graph_of false (rs_x ++ rs_pa ++ rs_pb ++ rs_y) = Ok G /\ graph_of false (rs_x ++ rs_pb ++ rs_pa ++ rs_y) = Ok H /\
      length (g_nodes G) = 12 /\ length (g_edges G) = 13 /\ G <> H).
 Proof. exact rswap_example. Qed.
+(** a ring bond CROSSING an exchanged branch: the first branch may leave ring bonds open that are closed
+    later in the text, after both branches (no [rings_local] for it); the other branch closes every ring bond
+    it opens and does not use a number the first one leaves open ([avoids]).  Partial: only one of the two
+    branches may leave ring bonds open, and it is the first one of the left text (the other orientation is the
+    same pair of texts read from right to left: the inverse permutation, [C01_sigma_inverse]); a ring bond
+    opened BEFORE the branches and closed inside one of them is not covered *)
+Theorem C01_branch_order_crossing_partial : forall x pa pb y g c,
+  grun false ginit x = Ok g -> q_cur g = Some c -> q_pend g = None ->
+  is_rblock pa = true -> is_rblock pb = true -> rings_local pb = true -> fresh g pa -> fresh g pb -> avoids pa pb ->
+  let s := swap_sigma (q_n g) (count_atoms pa) (count_atoms pb) in
+  match graph_of false (x ++ pa ++ pb ++ y), graph_of false (x ++ pb ++ pa ++ y) with
+  | Ok G, Ok H => exists n, graph_perm s n G H /\ sigma_ok s n
+  | Err e, Err e' => e = e'
+  | _, _ => False
+  end.
+Proof. exact xswap_branches. Qed.
+Theorem C01_branch_order_crossing_text_partial : forall x pa pb y g c,
+  wf_smiles (x ++ pa ++ pb ++ y) = true -> wf_smiles (x ++ pb ++ pa ++ y) = true ->
+  grun false ginit x = Ok g -> q_cur g = Some c -> q_pend g = None ->
+  is_rblock pa = true -> is_rblock pb = true -> rings_local pb = true -> fresh g pa -> fresh g pb -> avoids pa pb ->
+  let s := swap_sigma (q_n g) (count_atoms pa) (count_atoms pb) in
+  match smiles_parse (render_smiles false (x ++ pa ++ pb ++ y)), smiles_parse (render_smiles false (x ++ pb ++ pa ++ y)) with
+  | Ok G, Ok H => exists n, graph_perm s n G H /\ sigma_ok s n
+  | Err e, Err e' => e = e'
+  | _, _ => False
+  end.
+Proof. exact xswap_branches_text. Qed.
+Example C01_branch_order_crossing_nonvacuous :
+  to_string (render_smiles false (xs_x ++ xs_pa ++ xs_pb ++ xs_y)) = "CC(C1CC)(C2CC2)N1"%string /\
+  to_string (render_smiles false (xs_x ++ xs_pb ++ xs_pa ++ xs_y)) = "CC(C2CC2)(C1CC)N1"%string /\
+  wf_smiles (xs_x ++ xs_pa ++ xs_pb ++ xs_y) = true /\ wf_smiles (xs_x ++ xs_pb ++ xs_pa ++ xs_y) = true /\
+  is_rblock xs_pa = true /\ is_rblock xs_pb = true /\ rings_local xs_pa = false /\ rings_local xs_pb = true /\ avoids xs_pa xs_pb /\
+  (exists g, grun false ginit xs_x = Ok g /\ q_cur g = Some 1 /\ q_pend g = None /\ q_open g = []) /\
+  (exists G H, graph_of false (xs_x ++ xs_pa ++ xs_pb ++ xs_y) = Ok G /\ graph_of false (xs_x ++ xs_pb ++ xs_pa ++ xs_y) = Ok H /\
+     length (g_nodes G) = 9 /\ length (g_edges G) = 10 /\ In (8, 2, VInt 1) (g_edges G) /\ In (8, 5, VInt 1) (g_edges H) /\ G <> H).
+Proof. exact xswap_example. Qed.
 (** the general tool behind it: a state simulation under any index permutation that is the identity
     above the node counter holds along every continuation of the token list *)
 Theorem C01_permutation_simulation : forall s toks g h, sigma_ok s (q_n g) -> PSim s g h ->
@@ -453,7 +489,7 @@ Example C01_start_atom_reroot_nonvacuous :
 Proof. exact reroot_example. Qed.
 (** any start atom: sequences [rws] of elementary rewritings [rw1] of the token list, each at any place
     where its side conditions hold: the re-rooting step; the exchange of two adjacent branches on one atom
-    (without ring-bond markers, or with ring bonds closed inside); the tail of the text written as a last
+    (without ring-bond markers, with ring bonds closed inside, or one of them leaving ring bonds open); the tail of the text written as a last
     branch `x0 T` -> `x0 (T)` and back (T never closes more than it opens).  A neighbour inside a branch is
     reached by: tail as branch, exchanges that bring the branch to the end, branch as tail, re-rooting (the
     Example).  Every sequence relates the two graphs by the composed permutation.  Partial: that every
@@ -513,3 +549,5 @@ Print Assumptions C01_start_atom_reroot_text_partial.
 Print Assumptions C01_start_atom_path_partial.
 Print Assumptions C01_start_atom_rewrite_partial.
 Print Assumptions C01_start_atom_rewrite_text_partial.
+Print Assumptions C01_branch_order_crossing_partial.
+Print Assumptions C01_branch_order_crossing_text_partial.
